@@ -3,7 +3,7 @@
    a full flush) a reopen reads exactly what the running database read — log kept, or every
    flushed log file retired. Proved through the ground truth: every read equals the latest
    acknowledged write. *)
-From Coq Require Import Lia Sorted.
+From Coq Require Import Lia Sorted PeanoNat.
 From KV Require Import Spec.
 From KV Require EngineProofs.
 From KV Require Import Compaction CompactionProofs CompactionMerge CompactionReach CompactionReopen.
@@ -88,14 +88,14 @@ Proof.
   intros m k Hs. unfold mt_get. rewrite (MP.find_sorted k _ Hs).
   destruct (MP.first_key k (mt_entries m)) eqn:E.
   - split. discriminate. intro H. exfalso. apply H. apply first_key_some in E. exists m0. auto.
-  - split; auto. intros _ (e & He & Hk). apply (proj1 (first_key_none _ _)) in E. eapply E; eauto.
+  - split; auto. intros _ (e & He & Hk). pose proof (proj1 (first_key_none k (mt_entries m)) E e He). auto.
 Qed.
 
 Lemma mems_get_none : forall k layers, mems_get k layers = None <-> forall m, In m layers -> mt_get m k = None.
 Proof.
   induction layers; simpl. { split; auto; try (intros _ m []). }
   destruct (mt_get a k) eqn:E.
-  - split. discriminate. intro H. rewrite (H a) in E; auto. discriminate.
+  - split. discriminate. intro H. rewrite (H a (or_introl eq_refl)) in E. discriminate.
   - rewrite IHlayers. split; intros H m; [intros [<-|Hm]|intro Hm]; auto.
 Qed.
 
@@ -133,8 +133,9 @@ Proof.
     destruct (beq (sk last) (mk x)) eqn:E.
     + assert (L : (sseq last <? mseq x) = false). { apply N.ltb_ge. auto. }
       rewrite L. rewrite IH; auto. intros ? ? Q. inversion Q; subst. auto.
-    + rewrite IH; auto. simpl. rewrite <- app_assoc. simpl. rewrite sk_to_sentry. auto.
-      intros ? ? Q. inversion Q; subst. rewrite sk_to_sentry. simpl. auto.
+    + rewrite IH; auto.
+      * simpl. rewrite <- app_assoc. simpl. rewrite ?sk_to_sentry. auto.
+      * intros ? ? Q. inversion Q; subst. rewrite sk_to_sentry. simpl. auto.
 Qed.
 
 Lemma firsts_lookup : forall k l prev, MP.sorted l ->
@@ -152,10 +153,10 @@ Proof.
     destruct (match prev with Some p => beq p (mk x) | None => false end) eqn:Skip.
     + (* x continues the run of prev *)
       destruct prev as [p|]; try discriminate. apply beq_iff in Skip. subst p.
-      rewrite IH; auto. 2: { intros p y E Hy. inversion E; subst. apply Hxr; auto. }
+      rewrite IH; auto.
       destruct (beq (mk x) k) eqn:E; auto.
-    + unfold lookup. simpl. fold (lookup k (firsts (Some (mk x)) r)). rewrite sk_to_sentry.
-      rewrite IH; auto. 2: { intros p y E Hy. inversion E; subst. apply Hxr; auto. }
+    + unfold lookup. simpl. fold (lookup k (firsts (Some (mk x)) r)). rewrite ?sk_to_sentry.
+      rewrite IH; auto; [|intros p y Q Hy; inversion Q; subst; apply Hxr; auto].
       destruct (beq (mk x) k) eqn:E.
       * apply beq_iff in E. subst k. rewrite Skip. auto.
       * destruct (match prev with Some p => beq p k | None => false end) eqn:Pk; auto.
@@ -187,3 +188,962 @@ Proof.
   intros m k Hs Hv. rewrite Hv, collect_lookup by auto. unfold mt_get. rewrite (MP.find_sorted k _ Hs).
   destruct (MP.first_key k (mt_entries m)); simpl; auto.
 Qed.
+
+(* ---------- the invariant ---------- *)
+
+(* what a key reads as after a sequence of effects (put = Some v, delete = None) *)
+Definition spec (H : list (bytes * option bytes)) (k : bytes) : option bytes :=
+  match last_effect k H with Some (Some v) => Some v | _ => None end.
+
+Definition hflat (hm : EP.hist) : list (bytes * option bytes) := flat (map snd hm).
+
+(* the memtables that still have to be written: queued tables, then the active one *)
+Definition utabs (e : st) : list memtable := pending e ++ [active e].
+
+(* hd: the effects whose log records have been retired (they live in tables only);
+   hs: the acknowledged writes still in the log, per log file *)
+Record CInv (s : cst) (hd : list (bytes * option bytes)) (hs : list EP.hist) : Prop := mkCI {
+  ci_ok : cst_ok2 s;
+  ci_inv : EP.Inv (lost (eng s)) (concat hs);
+  ci_wal : map EP.wentries hs = wal_files (eng s);
+  ci_lost : lost_log (eng s) = false;
+  ci_ssts : forall k, read (map s_entries (rev (ssts (eng s)))) k = dread (disk s) k;
+  ci_pend : exists pre, imms (eng s) = pre ++ pending (eng s);
+  ci_imm : Forall (fun m => mt_imm m = true) (pending (eng s));
+  ci_size : forall m, In m (utabs (eng s)) -> mt_size m = 0 -> mt_entries m = [];
+  ci_seq : MP.seq_inv (active (eng s));
+  ci_hseq : Forall (fun q => q < MaxSeq) (map fst (concat hs));
+  (* a key that no unwritten memtable holds reads from the tables as its latest write *)
+  ci_di : forall k, (forall m, In m (utabs (eng s)) -> ~ tab_has k m) ->
+          dread (disk s) k = spec (hd ++ hflat (concat hs)) k
+}.
+
+Lemma hflat_app : forall a b, hflat (a ++ b) = hflat a ++ hflat b.
+Proof. intros. unfold hflat, flat. rewrite map_app, flat_map_app. auto. Qed.
+
+Lemma spec_app_some : forall a b k x, last_effect k b = Some x ->
+  spec (a ++ b) k = match x with Some v => Some v | None => None end.
+Proof. intros. unfold spec. rewrite EP.last_effect_app, H. destruct x; auto. Qed.
+
+Lemma spec_app_none : forall a b k, last_effect k b = None -> spec (a ++ b) k = spec a k.
+Proof. intros. unfold spec. rewrite EP.last_effect_app, H. auto. Qed.
+
+Lemma skipn_incl : forall (A : Type) n (l : list A), incl (skipn n l) l.
+Proof. intros A n l x Hx. rewrite <- (firstn_skipn n l). apply in_or_app. auto. Qed.
+
+Lemma utabs_layers : forall s hd hs m, CInv s hd hs -> In m (utabs (eng s)) -> In m (mem_layers (eng s)).
+Proof.
+  intros s hd hs m C Hm. unfold utabs in Hm. unfold mem_layers. apply in_app_iff in Hm.
+  destruct Hm as [Hm|[<-|[]]]. 2: simpl; auto.
+  right. apply -> in_rev. destruct (ci_pend _ _ _ C) as (pre & E). rewrite E. apply in_or_app. auto.
+Qed.
+
+Lemma utabs_ok : forall s hd hs m, CInv s hd hs -> In m (utabs (eng s)) -> mt_ok m.
+Proof.
+  intros s hd hs m C Hm. pose proof (c2_eng _ (ci_ok _ _ _ C)) as E. unfold utabs in Hm.
+  apply in_app_iff in Hm. destruct Hm as [Hm|[<-|[]]].
+  - pose proof (eo_pending _ E) as P. rewrite Forall_forall in P. auto.
+  - apply (eo_active _ E).
+Qed.
+
+(* every read of the running database returns the latest acknowledged write *)
+Theorem cget_spec : forall s hd hs k, CInv s hd hs -> cget s k = spec (hd ++ hflat (concat hs)) k.
+Proof.
+  intros s hd hs k C. unfold cget. rewrite <- get_lost.
+  rewrite cget_split by (apply (eo_ssts _ (c2_eng _ (ci_ok _ _ _ C)))).
+  unfold mem_read. rewrite (EP.mems_get_inv _ _ k (ci_inv _ _ _ C)). fold (hflat (concat hs)).
+  unfold latest. fold (hflat (concat hs)).
+  destruct (last_effect k (hflat (concat hs))) as [x|] eqn:L.
+  - rewrite (spec_app_some _ _ _ _ L). destruct x; auto.
+  - rewrite (spec_app_none _ _ _ L). simpl ssts. rewrite (ci_ssts _ _ _ C).
+    rewrite <- (spec_app_none hd (hflat (concat hs)) k L). apply (ci_di _ _ _ C).
+    intros m Hm.
+    assert (M : mems_get k (mem_layers (eng s)) = None).
+    { change (mem_layers (eng s)) with (mem_layers (lost (eng s))).
+      rewrite (EP.mems_get_inv _ _ k (ci_inv _ _ _ C)). exact L. }
+    apply mt_get_none. eapply utabs_ok; eauto.
+    apply (proj1 (mems_get_none _ _) M). eapply utabs_layers; eauto.
+Qed.
+
+(* ---------- writes ---------- *)
+
+Definition snoc_last {A : Type} (l : list (list A)) (x : list A) : list (list A) :=
+  match rev l with
+  | [] => [x]
+  | f :: r => rev r ++ [f ++ x]
+  end.
+
+Lemma concat_snoc_last : forall (A : Type) (l : list (list A)) x, concat (snoc_last l x) = concat l ++ x.
+Proof.
+  intros. unfold snoc_last. destruct (rev l) as [|f r] eqn:E.
+  - apply (f_equal (@rev _)) in E. rewrite rev_involutive in E. subst l. simpl. rewrite app_nil_r. auto.
+  - apply (f_equal (@rev _)) in E. rewrite rev_involutive in E. subst l. simpl.
+    rewrite !concat_app. simpl. rewrite !app_nil_r, app_assoc. auto.
+Qed.
+
+Lemma map_snoc_last : forall (A B : Type) (g : list A -> list B) l x,
+  (forall a b, g (a ++ b) = g a ++ g b) ->
+  map g (snoc_last l x) = snoc_last (map g l) (g x).
+Proof.
+  intros. unfold snoc_last. rewrite <- map_rev. destruct (rev l) as [|f r] eqn:E.
+  - reflexivity.
+  - simpl. rewrite map_app, map_rev. simpl. rewrite H. reflexivity.
+Qed.
+
+Lemma log_append_snoc : forall files es, log_append files es = snoc_last files es.
+Proof. reflexivity. Qed.
+
+Lemma last_effect_absent : forall k l, (forall p, In p l -> fst p <> k) -> last_effect k l = None.
+Proof.
+  induction l as [|[k' v] r IH]; simpl; intros; auto. rewrite IH by auto.
+  destruct (beq k' k) eqn:E; auto. apply beq_iff in E. exfalso. apply (H (k', v)); auto.
+Qed.
+
+Lemma tab_has_set_imm : forall k m, tab_has k (mt_set_imm m) <-> tab_has k m.
+Proof. unfold tab_has. simpl. tauto. Qed.
+
+Lemma mt_add_size : forall m e, mt_imm m = false -> mt_size (mt_add m e) <> 0.
+Proof. intros. unfold mt_add. rewrite H. simpl. unfold esize. lia. Qed.
+
+Section Write.
+  Variables (s : cst) (hd : list (bytes * option bytes)) (hs : list EP.hist).
+  Variables (ops : list bop) (e' : st) (q : N) (tr' : list bytes).
+  Hypothesis C : CInv s hd hs.
+  Hypothesis Hne : ops <> [].
+  Hypothesis Hw : apply_batch (eng s) ops = (e', WrOk q).
+
+  Let e := eng s.
+  Let ws := EP.write_state e ops.
+  Let s' := mkC e' (disk s) tr' (cc s) (retirable s).
+  Let p : N * wop := (q, WBatch ops).
+
+  Lemma write_facts : (MaxSeq <=? wal_next e) = false /\ q = wal_next e /\ e' = maybe_schedule ws.
+  Proof.
+    destruct (MaxSeq <=? wal_next e) eqn:M.
+    - unfold e in *. rewrite EP.apply_batch_overflow in Hw; auto. discriminate.
+    - unfold e in *. rewrite EP.apply_batch_ok in Hw; auto. inversion Hw; subst. auto.
+  Qed.
+
+  Lemma ws_fields :
+    cfg ws = cfg e /\ wal_files ws = log_append (wal_files e) (map (bop_entry q) ops) /\
+    imms ws = imms e /\ pending ws = pending e /\ ssts ws = ssts e /\ clock ws = clock e /\
+    mt_imm (active ws) = false /\
+    mt_entries (active ws) = MP.build_from (mt_entries (active e)) (map (bop_mentry q) ops).
+  Proof.
+    destruct write_facts as (_ & Q & _). unfold ws, EP.write_state. rewrite <- Q.
+    destruct (EP.add_all_spec q ops (upd_wal e (q + 1) (log_append (wal_files e) (map (bop_entry q) ops))))
+      as (H1 & H2 & H3 & H4 & H5 & H6 & H7 & H8 & H9 & H10 & H11).
+    assert (M : mt_imm (active e) = false) by (apply (EP.inv_active_mut _ _ (ci_inv _ _ _ C))).
+    destruct (H11 M) as [A B]. repeat split; auto.
+  Qed.
+
+  Lemma e'_fields :
+    wal_files e' = wal_files ws /\ ssts e' = ssts e /\ clock e' = clock e /\ cfg e' = cfg e /\
+    ((flush_pending ws = false /\ active e' = active ws /\ pending e' = pending e /\ imms e' = imms e) \/
+     (active e' = mt_empty /\ pending e' = pending e ++ [mt_set_imm (active ws)] /\
+      imms e' = imms e ++ [mt_set_imm (active ws)])).
+  Proof.
+    destruct write_facts as (_ & _ & E). destruct ws_fields as (F1 & F2 & F3 & F4 & F5 & F6 & F7 & F8).
+    rewrite E. unfold maybe_schedule. destruct (flush_pending ws) eqn:FP.
+    - simpl. repeat split; auto; try (right; rewrite F3, F4; auto).
+    - repeat split; auto; try (left; auto).
+  Qed.
+
+  Lemma q_small : q < MaxSeq.
+  Proof. destruct write_facts as (M & Q & _). apply N.leb_gt in M. lia. Qed.
+
+  Theorem CInv_write : CInv s' hd (snoc_last hs [p]).
+  Proof.
+    destruct write_facts as (M & Q & E). destruct ws_fields as (F1 & F2 & F3 & F4 & F5 & F6 & F7 & F8).
+    destruct e'_fields as (G1 & G2 & G3 & G4 & G5).
+    pose proof (ci_ok _ _ _ C) as [OK1 OK2 OK3].
+    assert (E' : e' = fst (apply_batch e ops)) by (unfold e; rewrite Hw; auto).
+    assert (HI : EP.Inv (lost e') (concat hs ++ [p])).
+    { apply (EP.Inv_apply_batch (lost e) (concat hs) ops (WBatch ops) (lost e') q); auto.
+      apply (ci_inv _ _ _ C). unfold e. rewrite lost_apply_batch, Hw. reflexivity. }
+    constructor; unfold s'; cbn [eng disk cc retirable].
+    - constructor; cbn [eng disk cc]; auto. rewrite E'. apply apply_batch_ok2; auto. rewrite G3. auto.
+    - rewrite concat_snoc_last. exact HI.
+    - etransitivity. apply map_snoc_last. apply EP.wentries_app.
+      pose proof (ci_wal _ _ _ C) as W. unfold EP.hist in W. rewrite W, EP.wentries_single. rewrite G1, F2. reflexivity.
+    - rewrite E'. rewrite EP.lost_log_apply_batch. apply (ci_lost _ _ _ C).
+    - rewrite G2. apply (ci_ssts _ _ _ C).
+    - destruct (ci_pend _ _ _ C) as (pre & P). destruct G5 as [(_ & _ & P1 & P2)|(_ & P1 & P2)].
+      + exists pre. rewrite P1, P2. auto.
+      + exists pre. rewrite P1, P2. unfold e. rewrite P. rewrite app_assoc. auto.
+    - destruct G5 as [(_ & _ & P1 & _)|(_ & P1 & _)]; rewrite P1.
+      + apply (ci_imm _ _ _ C).
+      + apply Forall_app. split. apply (ci_imm _ _ _ C). repeat constructor.
+    - intros m Hm Hz.
+      assert (Mut : mt_imm (active e) = false) by (apply (EP.inv_active_mut _ _ (ci_inv _ _ _ C))).
+      assert (Aws : mt_size (active ws) <> 0).
+      { destruct ops as [|o r]; try congruence.
+        unfold ws, EP.write_state, EP.add_all. simpl fold_left.
+        assert (G : forall (l : list bop) st0, mt_imm (active st0) = false -> mt_size (active st0) <> 0 ->
+                    mt_size (active (fold_left (fun a o0 => set_last (pool_add a (bop_mentry (wal_next e) o0)) (wal_next e)) l st0)) <> 0).
+        { induction l; simpl; intros; auto. apply IHl; simpl. unfold mt_add. rewrite H. reflexivity.
+          apply mt_add_size; auto. }
+        apply G; simpl.
+        - unfold mt_add. fold e. rewrite Mut. reflexivity.
+        - apply mt_add_size. exact Mut. }
+      unfold utabs in Hm. destruct G5 as [(_ & P0 & P1 & _)|(P0 & P1 & _)]; rewrite P0, P1 in Hm.
+      + apply in_app_iff in Hm. destruct Hm as [Hm|[<-|[]]]. 2: congruence.
+        apply (ci_size _ _ _ C); auto. unfold utabs. apply in_or_app. auto.
+      + rewrite <- app_assoc in Hm. apply in_app_iff in Hm. destruct Hm as [Hm|[<-|[<-|[]]]]; auto.
+        apply (ci_size _ _ _ C); auto. unfold utabs. apply in_or_app. auto.
+        simpl in Hz. congruence.
+    - destruct G5 as [(_ & P0 & _)|(P0 & _)]; rewrite P0.
+      + unfold ws, EP.write_state. apply EP.add_all_seq_inv. pose proof q_small. pose proof EP.MaxSeq_small. lia.
+        apply (ci_seq _ _ _ C).
+      + unfold MP.seq_inv. simpl. constructor.
+    - rewrite concat_snoc_last, map_app, Forall_app. split. apply (ci_hseq _ _ _ C).
+      simpl. constructor; auto. apply q_small.
+    - intros k Hk.
+      (* the key is in no unwritten table before the write, and the write does not touch it *)
+      assert (Hact : forall x, In x (mt_entries (active ws)) -> mk x <> k).
+      { intros x Hx Hkx. destruct G5 as [(_ & P0 & P1 & _)|(P0 & P1 & _)].
+        - apply (Hk (active e')). unfold utabs. apply in_or_app. simpl; auto. exists x. rewrite P0. auto.
+        - apply (Hk (mt_set_imm (active ws))). unfold utabs. rewrite P1. apply in_or_app. left. apply in_or_app. simpl; auto.
+          exists x. auto. }
+      assert (Hold : forall m, In m (utabs e) -> ~ tab_has k m).
+      { intros m Hm (x & Hx & Hkx). unfold utabs in Hm. apply in_app_iff in Hm. destruct Hm as [Hm|[<-|[]]].
+        - apply (Hk m). unfold utabs. destruct G5 as [(_ & _ & P1 & _)|(_ & P1 & _)]; rewrite P1.
+          apply in_or_app; auto. apply in_or_app. left. apply in_or_app. auto. exists x. auto.
+        - apply (Hact x); auto. rewrite F8. apply EP.build_from_in. auto. }
+      assert (Hops : forall o, In o ops -> fst o <> k).
+      { intros o Ho Hko. apply (Hact (bop_mentry q o)). rewrite F8. apply EP.build_from_in. right. apply in_map. auto.
+        rewrite EP.mk_bop_mentry. auto. }
+      rewrite concat_snoc_last, hflat_app. change (hflat [p]) with (ops ++ []). rewrite app_nil_r, app_assoc.
+      rewrite (spec_app_none _ ops k (last_effect_absent _ _ Hops)).
+      apply (ci_di _ _ _ C). exact Hold.
+  Qed.
+End Write.
+
+(* ---------- compaction steps ---------- *)
+
+Lemma Inv_set_clock : forall e h c, EP.Inv e h -> EP.Inv (set_clock e c) h.
+Proof. intros e h c [A B C D E F G H I J]. constructor; auto. Qed.
+
+Lemma CInv_compact : forall s hd hs t z, CInv s hd hs ->
+  selected (c_maxmem (cfg (eng s))) (cc s) (disk s) t ->
+  let outs := task_outputs (keep_of (tracked s)) (cc s) (clock (eng s)) z t in
+  CInv (mkC (set_clock (eng s) (clock (eng s) + N.of_nat (length outs)))
+            (remove_files (t_inputs t) (disk s) ++ outs) (tracked s) (cc s) (retirable s)) hd hs.
+Proof.
+  intros s hd hs t z C S outs. pose proof (ci_ok _ _ _ C) as [A B D].
+  assert (P : forall k, dread (remove_files (t_inputs t) (disk s) ++ outs) k = dread (disk s) k).
+  { intro k. apply (merge_preserves (disk s) (clock (eng s)) (c_maxmem (cfg (eng s))) (cc s) t); auto. }
+  constructor; cbn [eng disk cc retirable].
+  - constructor; cbn [eng disk cc]; auto. apply set_clock_ok2; auto.
+    apply (task_keeps_wf (disk s) (clock (eng s)) (c_maxmem (cfg (eng s))) (cc s) t); auto.
+  - change (lost (set_clock (eng s) (clock (eng s) + N.of_nat (length outs))))
+      with (set_clock (lost (eng s)) (clock (eng s) + N.of_nat (length outs))).
+    apply Inv_set_clock. apply (ci_inv _ _ _ C).
+  - apply (ci_wal _ _ _ C).
+  - apply (ci_lost _ _ _ C).
+  - intro k. rewrite P. apply (ci_ssts _ _ _ C).
+  - apply (ci_pend _ _ _ C).
+  - apply (ci_imm _ _ _ C).
+  - apply (ci_size _ _ _ C).
+  - apply (ci_seq _ _ _ C).
+  - apply (ci_hseq _ _ _ C).
+  - intros k Hk. rewrite P. apply (ci_di _ _ _ C). exact Hk.
+Qed.
+
+Lemma CInv_trigger : forall s hd hs z, CInv s hd hs -> CInv (ctrigger s z) hd hs.
+Proof.
+  intros. unfold ctrigger. destruct (select _ _ _) eqn:E; auto.
+  apply CInv_compact; auto. left. auto.
+Qed.
+
+Lemma CInv_range : forall s hd hs lo hi z, CInv s hd hs -> CInv (crange s lo hi z) hd hs.
+Proof.
+  intros. unfold crange. destruct (select_range _ _ _) eqn:E; auto.
+  apply CInv_compact; auto. right. eauto.
+Qed.
+
+(* ---------- reading a directory to which a flush has added tables ---------- *)
+
+Lemma fresh_sorted : forall a l b, fresh a l b -> StronglySorted (fun x y => s_ts x < s_ts y) l.
+Proof.
+  induction 1. constructor. constructor; auto.
+  destruct (fresh_props _ _ _ H3) as [_ P]. rewrite Forall_forall. intros y Hy.
+  destruct (P y Hy) as (_ & R & _). lia.
+Qed.
+
+Lemma with_sizes_in_sst : forall l i z t, In t l -> exists f, In f (with_sizes i z l) /\ d_sst f = t.
+Proof.
+  induction l; simpl; intros. tauto. destruct H as [->|H].
+  - eexists. split. left. reflexivity. reflexivity.
+  - destruct (IHl (S i) z t H) as (f & A & B). eauto.
+Qed.
+
+Lemma dread_add_fresh : forall dir c news c' i z k, WF dir c -> fresh c news c' ->
+  dread (dir ++ with_sizes i z news) k =
+  match first_hit k (map s_entries (rev news)) with
+  | Some e => sval e
+  | None => dread dir k
+  end.
+Proof.
+  intros dir c news c' i z k W F.
+  destruct (fresh_props _ _ _ F) as [ND FP].
+  assert (NDs : NoDup (map dts (with_sizes i z news))).
+  { unfold dts. rewrite <- (map_map d_sst s_ts), with_sizes_sst. auto. }
+  unfold dread at 1, read.
+  destruct (first_hit k (map s_entries (rev news))) as [e|] eqn:E.
+  - pose proof (StronglySorted_rev _ _ _ (fresh_sorted _ _ _ F)) as SR.
+    destruct (first_hit_inv _ k _ e SR E) as (t & Ht & Hl & Hall).
+    apply in_rev in Ht. destruct (with_sizes_in_sst news i z t Ht) as (f & Hf & Ef).
+    rewrite (dir_top (dir ++ with_sizes i z news) k f e); auto.
+    + apply in_or_app. auto.
+    + unfold d_entries. rewrite Ef. auto.
+    + intros g Hg Hh. apply in_app_iff in Hg. destruct Hg as [Hg|Hg].
+      * right. unfold dnewer, snewer. rewrite Ef. destruct (FP t Ht) as (L0 & R & _).
+        pose proof (wf_clock _ _ W g Hg). unfold dts in H. lia.
+      * destruct (with_sizes_in _ _ _ _ Hg) as [Hgs _].
+        destruct (Hall (d_sst g)) as [Q|Q].
+        -- apply -> in_rev. auto.
+        -- exact Hh.
+        -- left. eapply NoDup_map_inj; eauto. unfold dts. rewrite Q, Ef. auto.
+        -- right. unfold dnewer, snewer. rewrite Ef.
+           destruct (FP t Ht) as (L0 & _). destruct (FP _ Hgs) as (L0' & _). right. split; auto. lia.
+  - assert (Hnew : forall g, In g (with_sizes i z news) -> ~ dholds k g).
+    { intros g Hg Hh. destruct (with_sizes_in _ _ _ _ Hg) as [Hgs _].
+      apply (first_hit_none_inv k (rev news) E (d_sst g)). apply -> in_rev. auto. exact Hh. }
+    unfold dread, read.
+    destruct (first_hit k (map s_entries (precl dir))) as [e0|] eqn:E0.
+    + destruct (top_of_dir dir c k e0 W E0) as (f0 & Hf0 & Hl0 & Hall0).
+      rewrite (dir_top (dir ++ with_sizes i z news) k f0 e0); auto.
+      * apply in_or_app. auto.
+      * intros g Hg Hh. apply in_app_iff in Hg. destruct Hg as [Hg|Hg]; auto. exfalso. eapply Hnew; eauto.
+    + rewrite dir_nobody; auto. intros g Hg Hh. apply in_app_iff in Hg. destruct Hg as [Hg|Hg].
+      eapply (dir_nobody_inv dir k E0); eauto. eapply Hnew; eauto.
+Qed.
+
+(* ---------- what a flush writes ---------- *)
+
+Definition tfile (m : memtable) : list sentry :=
+  if mt_size m =? 0 then [] else collect (mt_iter_entries m).
+Definition optfile (m : memtable) : list (list sentry) :=
+  match tfile m with [] => [] | es => [es] end.
+Definition newtab (num ts : N) (m : memtable) : list sst :=
+  match tfile m with [] => [] | es => [mkSst 0 num ts es] end.
+
+Lemma flush_table_files : forall e m,
+  ssts (flush_table e m) = ssts e ++ newtab (next_file e) (clock e) m /\
+  clock (flush_table e m) = clock e + N.of_nat (length (newtab (next_file e) (clock e) m)) /\
+  same_mem e (flush_table e m).
+Proof.
+  intros. unfold flush_table, newtab, tfile. destruct (mt_size m =? 0).
+  { simpl. rewrite app_nil_r, N.add_0_r. repeat split; auto. }
+  destruct (collect (mt_iter_entries m)).
+  { simpl. rewrite app_nil_r, N.add_0_r. repeat split; auto. }
+  simpl. repeat split; auto.
+Qed.
+
+Lemma fold_flush_files : forall ps e, exists news,
+  ssts (fold_left flush_table ps e) = ssts e ++ news /\
+  clock (fold_left flush_table ps e) = clock e + N.of_nat (length news) /\
+  map s_entries news = flat_map optfile ps /\
+  same_mem e (fold_left flush_table ps e).
+Proof.
+  induction ps; simpl; intros.
+  - exists []. rewrite app_nil_r, N.add_0_r. repeat split; auto.
+  - destruct (flush_table_files e a) as (A1 & B1 & C1).
+    destruct (IHps (flush_table e a)) as (n2 & A2 & B2 & D2 & C2).
+    exists (newtab (next_file e) (clock e) a ++ n2). rewrite A2, A1, app_assoc. split; auto.
+    split. rewrite B2, B1, app_length, Nat2N.inj_add. lia.
+    split. rewrite map_app, D2. f_equal. unfold newtab, optfile. destruct (tfile a); auto.
+    destruct C1, C2. constructor; congruence.
+Qed.
+
+Definition flush_tables (e : st) : list memtable :=
+  match pending e with [] => [active e] | ps => ps end.
+
+Lemma flush_files : forall e, (mt_size (active e) = 0 -> mt_entries (active e) = []) ->
+  exists news,
+    ssts (flush e) = ssts e ++ news /\
+    clock (flush e) = clock e + N.of_nat (length news) /\
+    map s_entries news = flat_map optfile (flush_tables e) /\
+    active (flush e) = active e /\ imms (flush e) = imms e /\ pending (flush e) = [] /\ cfg (flush e) = cfg e /\
+    (wal_files (flush e) = wal_files e \/ wal_files (flush e) = wal_files e ++ [[]]).
+Proof.
+  intros e Hz. unfold flush, flush_tables. destruct (pending e) eqn:P.
+  - destruct (0 <? mt_size (active e)) eqn:Z.
+    + destruct (fold_flush_files [active e] (rotate e)) as (n & A & B & D & [S1 S2 S3 S4 S5]).
+      simpl in *. exists n. repeat split; auto. congruence.
+    + exists []. apply N.ltb_ge in Z. assert (mt_size (active e) = 0) by lia.
+      rewrite app_nil_r, N.add_0_r. simpl. unfold optfile, tfile. rewrite H. simpl. repeat split; auto.
+  - destruct (fold_flush_files (m :: l) (rotate (clear_pending e))) as (n & A & B & D & [S1 S2 S3 S4 S5]).
+    simpl in *. exists n. repeat split; auto.
+Qed.
+
+Lemma collect_nil : forall l, MP.sorted l -> collect l = [] -> l = [].
+Proof.
+  intros l Hs H. destruct l as [|x r]; auto. exfalso.
+  pose proof (collect_lookup (mk x) (x :: r) Hs) as L. rewrite H in L. simpl in L.
+  rewrite (proj2 (beq_iff _ _) eq_refl) in L. discriminate.
+Qed.
+
+Record tab_ok (m : memtable) : Prop := mkTO {
+  to_sorted : mt_ok m;
+  to_vis : mt_iter_entries m = mt_entries m;
+  to_size : mt_size m = 0 -> mt_entries m = []
+}.
+
+(* the table file of a memtable, if one is written, reads as the memtable *)
+Lemma first_hit_single : forall k t, first_hit k [t] = lookup k t.
+Proof. intros. simpl. destruct (lookup k t); auto. Qed.
+
+Lemma optfile_reads : forall m k, tab_ok m ->
+  option_map sval (first_hit k (optfile m)) = mt_get m k.
+Proof.
+  intros m k [Hs Hv Hz]. unfold optfile, tfile.
+  assert (E : mt_entries m = [] -> mt_get m k = None).
+  { intro E. unfold mt_get. rewrite E. reflexivity. }
+  destruct (mt_size m =? 0) eqn:Z.
+  - apply N.eqb_eq in Z. simpl. symmetry. apply E. auto.
+  - pose proof (flushed_reads_as_table m k Hs Hv) as F.
+    destruct (collect (mt_iter_entries m)) as [|x r] eqn:C.
+    + simpl. symmetry. apply E. rewrite Hv in C. apply collect_nil; auto.
+    + rewrite first_hit_single. exact F.
+Qed.
+
+Lemma files_read_as_tables : forall ps k, Forall tab_ok ps ->
+  option_map sval (first_hit k (rev (flat_map optfile ps))) = mems_get k (rev ps).
+Proof.
+  induction ps using rev_ind; intros k H. reflexivity.
+  apply Forall_app in H. destruct H as [H Hx]. inversion Hx; subst.
+  rewrite flat_map_app, !rev_app_distr. simpl. rewrite app_nil_r.
+  assert (R : rev (optfile x) = optfile x).
+  { unfold optfile. destruct (tfile x); reflexivity. }
+  rewrite R, first_hit_app. pose proof (optfile_reads x k H2) as O.
+  destruct (first_hit k (optfile x)); simpl in *.
+  - rewrite <- O. reflexivity.
+  - rewrite <- O. apply IHps. auto.
+Qed.
+
+(* ---------- flush ---------- *)
+
+Lemma lost_log_flush_table : forall e m, lost_log (flush_table e m) = lost_log e.
+Proof. intros. unfold flush_table. destruct (mt_size m =? 0); auto. destruct (collect _); auto. Qed.
+
+Lemma lost_log_flush : forall e, lost_log (flush e) = lost_log e.
+Proof.
+  intros. unfold flush. destruct (pending e).
+  - destruct (0 <? mt_size (active e)); auto. rewrite lost_log_flush_table. auto.
+  - assert (G : forall ps x, lost_log (fold_left flush_table ps x) = lost_log x).
+    { induction ps; simpl; intros; auto. rewrite IHps. apply lost_log_flush_table. }
+    rewrite G. auto.
+Qed.
+
+Definition ov (x : option (option bytes)) (d : option bytes) : option bytes :=
+  match x with Some y => y | None => d end.
+
+Lemma utab_ok : forall s hd hs m, CInv s hd hs -> In m (utabs (eng s)) -> tab_ok m.
+Proof.
+  intros s hd hs m C Hm. constructor.
+  - eapply utabs_ok; eauto.
+  - unfold utabs in Hm. apply in_app_iff in Hm. destruct Hm as [Hm|[<-|[]]].
+    + apply EP.iter_imm. pose proof (ci_imm _ _ _ C) as I. rewrite Forall_forall in I. auto.
+    + apply MP.iter_all. apply (ci_seq _ _ _ C).
+  - apply (ci_size _ _ _ C). auto.
+Qed.
+
+Lemma flush_tables_utabs : forall e m, In m (flush_tables e) -> In m (utabs e).
+Proof.
+  unfold flush_tables, utabs. intros. destruct (pending e) eqn:P. simpl in *. auto.
+  apply in_or_app. auto.
+Qed.
+
+Section Flush.
+  Variables (s : cst) (hd : list (bytes * option bytes)) (hs : list EP.hist) (z : list N).
+  Hypothesis C : CInv s hd hs.
+  Let e := eng s.
+  Let H := hd ++ hflat (concat hs).
+  Let T := flush_tables e.
+
+  Lemma flush_disk_reads : forall k,
+    dread (disk (cflush s z)) k = ov (mems_get k (rev T)) (dread (disk s) k) /\
+    read (map s_entries (rev (ssts (flush e)))) k = ov (mems_get k (rev T)) (dread (disk s) k).
+  Proof.
+    intro k. pose proof (ci_ok _ _ _ C) as [A B D].
+    destruct (flush_files e) as (news & F1 & F2 & F3 & F4 & F5 & F6 & F7 & F8).
+    { apply (ci_size _ _ _ C). unfold utabs. apply in_or_app. simpl. auto. }
+    destruct (flush_fresh e A) as (news' & G1 & G2 & _).
+    assert (news' = news). { rewrite F1 in G1. apply app_inv_head in G1. auto. } subst news'.
+    assert (TO : Forall tab_ok T).
+    { rewrite Forall_forall. intros m Hm. eapply utab_ok; eauto. apply flush_tables_utabs. auto. }
+    assert (R : first_hit k (map s_entries (rev news)) = first_hit k (rev (flat_map optfile T))).
+    { rewrite map_rev, F3. reflexivity. }
+    pose proof (files_read_as_tables T k TO) as FR.
+    split.
+    - unfold cflush. cbn [disk]. fold e. rewrite F1, skipn_app_exact.
+      rewrite (dread_add_fresh (disk s) (clock e) news (clock (flush e)) 0 z k B G2). rewrite R.
+      destruct (first_hit k (rev (flat_map optfile T))); simpl in FR; rewrite <- FR; reflexivity.
+    - rewrite F1, rev_app_distr, map_app. unfold read. rewrite first_hit_app, R.
+      destruct (first_hit k (rev (flat_map optfile T))); simpl in FR; rewrite <- FR; simpl; auto.
+      apply (ci_ssts _ _ _ C).
+  Qed.
+
+  (* the latest write of a key held by one of the tables being written, not by the active one *)
+  Lemma pending_latest : forall k x, pending e <> [] -> ~ tab_has k (active e) ->
+    mems_get k (rev (pending e)) = Some x -> last_effect k (hflat (concat hs)) = Some x.
+  Proof.
+    intros k x Hp Ha Hm.
+    pose proof (EP.mems_get_inv _ _ k (ci_inv _ _ _ C)) as L. unfold latest in L. fold (hflat (concat hs)) in L.
+    rewrite <- L. change (mem_layers (lost (eng s))) with (mem_layers e). unfold mem_layers.
+    destruct (ci_pend _ _ _ C) as (pre & P). fold e in P. rewrite P, rev_app_distr. simpl.
+    assert (N : mt_get (active e) k = None).
+    { apply mt_get_none; auto. apply (eo_active _ (c2_eng _ (ci_ok _ _ _ C))). }
+    rewrite N, EP.mems_get_app, Hm. reflexivity.
+  Qed.
+
+  Lemma active_latest : forall k x, mt_get (active e) k = Some x -> last_effect k (hflat (concat hs)) = Some x.
+  Proof.
+    intros k x Hm.
+    pose proof (EP.mems_get_inv _ _ k (ci_inv _ _ _ C)) as L. unfold latest in L. fold (hflat (concat hs)) in L.
+    rewrite <- L. change (mem_layers (lost (eng s))) with (mem_layers e). unfold mem_layers. simpl. rewrite Hm. auto.
+  Qed.
+
+  Theorem CInv_flush : exists hs',
+    CInv (cflush s z) hd hs' /\ concat hs' = concat hs /\
+    pending (eng (cflush s z)) = [] /\
+    length (wal_files (eng (cflush s z))) = length hs' /\
+    (pending e = [] -> forall k, dread (disk (cflush s z)) k = spec H k).
+  Proof.
+    pose proof (ci_ok _ _ _ C) as OK. destruct OK as [A B D].
+    destruct (flush_files e) as (news & F1 & F2 & F3 & F4 & F5 & F6 & F7 & F8).
+    { apply (ci_size _ _ _ C). unfold utabs. apply in_or_app. simpl. auto. }
+    set (hs' := if Nat.eqb (length (wal_files (flush e))) (length (wal_files e)) then hs else hs ++ [[]]).
+    assert (Hc : concat hs' = concat hs).
+    { unfold hs'. destruct (Nat.eqb _ _); auto. rewrite concat_app. simpl. rewrite app_nil_r. auto. }
+    assert (Hw : map EP.wentries hs' = wal_files (flush e)).
+    { unfold hs'. destruct F8 as [W|W]; rewrite W.
+      - rewrite Nat.eqb_refl. apply (ci_wal _ _ _ C).
+      - assert (Nat.eqb (length (wal_files e ++ [[]])) (length (wal_files e)) = false).
+        { apply Nat.eqb_neq. rewrite app_length. simpl. lia. }
+        rewrite H0. rewrite map_app. simpl. f_equal. apply (ci_wal _ _ _ C). }
+    assert (Act : forall k, mt_get (active e) k = None <-> ~ tab_has k (active e)).
+    { intro k. apply mt_get_none. apply (eo_active _ A). }
+    exists hs'. split; [|split; [auto|split; [exact F6|split]]].
+    - constructor; unfold cflush; cbn [eng disk cc retirable]; fold e.
+      + apply (cflush_ok2 s z (ci_ok _ _ _ C)).
+      + rewrite Hc. rewrite <- lost_flush. apply EP.Inv_flush. apply (ci_inv _ _ _ C).
+      + exact Hw.
+      + rewrite lost_log_flush. apply (ci_lost _ _ _ C).
+      + intro k. destruct (flush_disk_reads k) as [R1 R2]. unfold cflush in R1. cbn [disk] in R1. fold e in R1.
+        rewrite R1, R2. reflexivity.
+      + exists (imms e). rewrite F5, F6, app_nil_r. auto.
+      + rewrite F6. constructor.
+      + intros m Hm. unfold utabs in Hm. rewrite F6, F4 in Hm. simpl in Hm. destruct Hm as [<-|[]].
+        apply (ci_size _ _ _ C). unfold utabs. apply in_or_app. simpl. auto.
+      + rewrite F4. apply (ci_seq _ _ _ C).
+      + rewrite Hc. apply (ci_hseq _ _ _ C).
+      + intros k Hk. rewrite Hc.
+        assert (Ha : ~ tab_has k (active e)).
+        { apply Hk. unfold utabs. rewrite F6, F4. simpl. auto. }
+        destruct (flush_disk_reads k) as [R1 _]. unfold cflush in R1. cbn [disk] in R1. fold e in R1.
+        rewrite R1. unfold T, flush_tables. destruct (pending e) as [|p0 ps] eqn:P.
+        * simpl. rewrite (proj2 (Act k) Ha). simpl. apply (ci_di _ _ _ C).
+          intros m Hm. unfold utabs in Hm. fold e in Hm. rewrite P in Hm. simpl in Hm. destruct Hm as [<-|[]]. auto.
+        * destruct (mems_get k (rev (p0 :: ps))) as [x|] eqn:M.
+          -- simpl. rewrite <- P in M. rewrite (spec_app_some hd _ k x (pending_latest k x ltac:(rewrite P; discriminate) Ha M)).
+             destruct x; auto.
+          -- simpl. apply (ci_di _ _ _ C). intros m Hm. unfold utabs in Hm. fold e in Hm. rewrite P in Hm.
+             apply in_app_iff in Hm. destruct Hm as [Hm|[<-|[]]]; auto.
+             apply mt_get_none. eapply utabs_ok; eauto. unfold utabs. fold e. rewrite P. apply in_or_app. auto.
+             apply (proj1 (mems_get_none _ _) M). apply -> in_rev. auto.
+    - unfold cflush. cbn [eng]. fold e. rewrite <- Hw. rewrite map_length. auto.
+    - intros P k. destruct (flush_disk_reads k) as [R1 _]. rewrite R1. unfold T, flush_tables. rewrite P.
+      simpl. destruct (mt_get (active e) k) as [x|] eqn:M.
+      + simpl. unfold H. rewrite (spec_app_some hd _ k x (active_latest k x M)). destruct x; auto.
+      + simpl. apply (ci_di _ _ _ C). intros m Hm. unfold utabs in Hm. fold e in Hm. rewrite P in Hm. simpl in Hm.
+        destruct Hm as [<-|[]]. apply Act. auto.
+  Qed.
+End Flush.
+
+(* ---------- reopen ---------- *)
+
+Definition tab_inv (m : memtable) : Prop := (mt_size m = 0 -> mt_entries m = []) /\ MP.seq_inv m.
+
+Lemma tab_inv_empty : tab_inv mt_empty.
+Proof. split; auto. unfold MP.seq_inv. simpl. constructor. Qed.
+
+Lemma tab_inv_add : forall m x, tab_inv m -> MP.seq_ok x -> tab_inv (mt_add m x).
+Proof.
+  intros m x [A B] Hx. split.
+  - unfold mt_add. destruct (mt_imm m) eqn:I; auto. simpl. unfold esize. lia.
+  - apply MP.mt_add_seq_inv; auto.
+Qed.
+
+Lemma tab_inv_imm : forall m, tab_inv m -> tab_inv (mt_set_imm m).
+Proof. intros m [A B]. split; auto. Qed.
+
+Lemma recover_tables_inv : forall c es tables maxseq r q,
+  Forall tab_inv tables -> (forall a m, In a es -> wentry_mentry a = Some m -> MP.seq_ok m) ->
+  recover_tables c es tables maxseq = Some (r, q) -> Forall tab_inv r.
+Proof.
+  induction es; simpl; intros. inversion H1; subst. auto.
+  destruct tables as [|cur older]; try discriminate. inversion H; subst.
+  assert (Hm : forall m, wentry_mentry a = Some m -> MP.seq_ok m) by (intros; eapply H0; eauto).
+  destruct (c_memsize c <=? mt_size cur).
+  - destruct (c_maxmem c <=? _); try discriminate.
+    eapply IHes in H1; eauto. constructor; [|constructor; [apply tab_inv_imm; auto|auto]].
+    destruct (wentry_mentry a) eqn:E. apply tab_inv_add; auto. apply tab_inv_empty. apply tab_inv_empty.
+  - eapply IHes in H1; eauto. constructor; auto. destruct (wentry_mentry a) eqn:E; auto.
+    apply tab_inv_add; auto.
+Qed.
+
+Lemma SS_skipn : forall (A : Type) (R : A -> A -> Prop) n l, StronglySorted R l -> StronglySorted R (skipn n l).
+Proof.
+  induction n; destruct l; simpl; intros; auto. inversion H; subst. auto.
+Qed.
+
+Lemma concat_map_wentries : forall hs, concat (map EP.wentries hs) = EP.wentries (concat hs).
+Proof. induction hs; simpl; auto. rewrite IHhs, EP.wentries_app. auto. Qed.
+
+Section Reopen.
+  (* e1: the engine about to be reopened (its log possibly shortened by a retirement); the state
+     s supplies the directory *)
+  Variables (s : cst) (e1 : st) (hd1 : list (bytes * option bytes)) (hs1 : list EP.hist) (r1 : nat).
+  Hypothesis OK : cst_ok2 s.
+  Hypothesis Hsorted : StronglySorted N.lt (map fst (concat hs1)).
+  Hypothesis Hnonempty : Forall (fun p => effects (snd p) <> []) (concat hs1).
+  Hypothesis Hwal : map EP.wentries hs1 = wal_files e1.
+  Hypothesis Hlost : lost_log e1 = false.
+  Hypothesis Hseq : Forall (fun q => q < MaxSeq) (map fst (concat hs1)).
+  Hypothesis Hdi : forall k, (forall x, In x (EP.entries (concat hs1)) -> mk x <> k) ->
+                   dread (disk s) k = spec (hd1 ++ hflat (concat hs1)) k.
+  Let D := map d_sst (dsort (disk s)).
+  Let e2 := reopen (set_ssts e1 D).
+  Hypothesis Hrec : lost_log e2 = false.
+  Hypothesis Hclock : clock e1 = clock (eng s).
+  Hypothesis Heok : eng_ok2 e2.
+
+  Let hs2 := match hs1 with [] => [[]] | _ => hs1 end.
+
+  Theorem CInv_reopen_core : CInv (mkC e2 (disk s) [] (cc s) r1) hd1 hs2.
+  Proof.
+    assert (Hc2 : concat hs2 = concat hs1).
+    { unfold hs2. destruct hs1; auto. }
+    destruct (EP.recovered (lost (set_ssts e1 D))) as [[tbls maxseq]|] eqn:R.
+    2: { exfalso. change (EP.recovered (lost (set_ssts e1 D))) with (EP.recovered (set_ssts e1 D)) in R.
+         pose proof (EP.reopen_none _ R) as E. fold e2 in E.
+         assert (lost_log e2 = true) by (rewrite E; reflexivity). congruence. }
+    assert (DI : EP.DiskInv (lost (set_ssts e1 D)) (concat hs1)).
+    { constructor; auto.
+      - simpl. rewrite <- Hwal. apply concat_map_wentries.
+      - simpl. discriminate. }
+    pose proof (EP.Inv_reopen_disk _ _ _ _ DI R) as I2. rewrite lost_reopen in I2. fold e2 in I2.
+    pose proof (EP.reopen_some _ _ _ R) as E2. rewrite lost_reopen in E2. fold e2 in E2.
+    assert (F : active e2 = match tbls with a :: _ => a | [] => mt_empty end /\
+                imms e2 = map mt_set_imm (rev (tl tbls)) /\ pending e2 = map mt_set_imm (rev (tl tbls)) /\
+                ssts e2 = sst_sort D /\ wal_files e2 = match wal_files e1 with [] => [[]] | f => f end /\
+                clock e2 = clock e1).
+    {       assert (A1 : active (lost e2) = active e2) by reflexivity.
+      assert (A2 : imms (lost e2) = imms e2) by reflexivity.
+      assert (A3 : pending (lost e2) = pending e2) by reflexivity.
+      assert (A4 : ssts (lost e2) = ssts e2) by reflexivity.
+      assert (A5 : wal_files (lost e2) = wal_files e2) by reflexivity.
+      assert (A6 : clock (lost e2) = clock e2) by reflexivity.
+      rewrite E2 in A1, A2, A3, A4, A5, A6. simpl in *. repeat split; auto. }
+    destruct F as (F1 & F2 & F3 & F4 & F5 & F6).
+    (* the recovered tables *)
+    assert (TI : Forall tab_inv tbls).
+    { unfold EP.recovered in R. eapply recover_tables_inv in R; eauto.
+      - constructor. apply tab_inv_empty. constructor.
+      - intros a m Ha Hm. unfold MP.seq_ok.
+        assert (Ha' : In a (EP.wentries (concat hs1))).
+        { rewrite <- concat_map_wentries, Hwal. simpl in Ha. unfold EP.reopen_files in Ha. simpl in Ha.
+          destruct (wal_files e1); auto. }
+        apply EP.in_wentries in Ha'. destruct Ha' as (p & o & Hp & Ho & ->).
+        rewrite EP.wentry_mentry_bop in Hm. inversion Hm; subst. rewrite EP.mseq_bop_mentry.
+        rewrite Forall_forall in Hseq. pose proof (Hseq (fst p) (in_map fst _ _ Hp)). pose proof EP.MaxSeq_small. lia. }
+    constructor; cbn [eng disk cc retirable].
+    - destruct OK as [A B C0]. constructor; cbn [eng disk cc]; auto. rewrite F6, Hclock. auto.
+    - rewrite Hc2. exact I2.
+    - rewrite F5, <- Hwal. unfold hs2. destruct hs1; reflexivity.
+    - exact Hrec.
+    - intro k. rewrite F4. reflexivity.
+    - exists []. rewrite F2, F3. auto.
+    - rewrite F3. rewrite Forall_forall. intros m Hm. apply in_map_iff in Hm. destruct Hm as (m0 & <- & _). reflexivity.
+    - intros m Hm. unfold utabs in Hm. rewrite F3, F1 in Hm. apply in_app_iff in Hm.
+      rewrite Forall_forall in TI. destruct Hm as [Hm|[<-|[]]].
+      + apply in_map_iff in Hm. destruct Hm as (m0 & <- & Hm0). simpl. apply TI.
+        apply in_rev in Hm0. destruct tbls; simpl in *. tauto. auto.
+      + destruct tbls. auto. apply TI. simpl. auto.
+    - rewrite F1. destruct tbls. unfold MP.seq_inv. simpl. constructor.
+      rewrite Forall_forall in TI. apply TI. simpl. auto.
+    - rewrite Hc2. exact Hseq.
+    - intros k Hk. rewrite Hc2. apply Hdi. intros x Hx Hkx.
+      destruct (EP.inv_layers _ _ I2) as (segs & HF & HC).
+      rewrite <- HC in Hx. apply in_concat in Hx. destruct Hx as (seg & Hseg & Hxs).
+      (* the layer of that segment holds x *)
+      assert (exists m, In m (imms e2 ++ [active e2]) /\ In x (mt_entries m)).
+      { clear - HF Hseg Hxs. change (imms (lost e2)) with (imms e2) in HF. change (active (lost e2)) with (active e2) in HF.
+        induction HF. destruct Hseg. destruct Hseg as [<-|Hseg].
+        - exists x0. split. simpl; auto. unfold EP.layer_ok in H. rewrite H. apply MP.build_in. auto.
+        - destruct (IHHF Hseg) as (m & A & B). exists m. split; auto. simpl; auto. }
+      destruct H as (m & Hm & Hxm). apply (Hk m).
+      + unfold utabs. rewrite F3, <- F2. auto.
+      + exists x. auto.
+  Qed.
+End Reopen.
+
+(* ---------- assembling the steps ---------- *)
+
+Lemma CInv_ext : forall s s' hd hs, eng s' = eng s -> disk s' = disk s -> cc s' = cc s ->
+  CInv s hd hs -> CInv s' hd hs.
+Proof.
+  intros s s' hd hs E1 E2 E3 [A B C D E F G H I J K]. destruct A as [A1 A2 A3].
+  constructor; rewrite ?E1, ?E2; auto. constructor; rewrite ?E1, ?E2, ?E3; auto.
+Qed.
+
+Lemma Inv_lost : forall e h, EP.Inv e h -> EP.Inv (lost e) h.
+Proof. intros e h [A B C D E F G H I J]. constructor; auto. simpl. discriminate. Qed.
+
+Lemma CInv_init : forall c k, cfg_ok k -> CInv (cinit c k) [] [[]].
+Proof.
+  intros c k Hk. pose proof (reachable_wf c k [] Hk) as OK. unfold crun in OK. simpl in OK.
+  constructor; simpl; auto;
+    try (apply Inv_lost; apply EP.Inv_init);
+    try (exists []; reflexivity);
+    try (intros m [<-|[]] _; reflexivity);
+    try (unfold MP.seq_inv; simpl; constructor);
+    try (intros k0 _; unfold dread, read; rewrite dir_nobody; [reflexivity|intros g []]).
+Qed.
+
+Definition Hof (hd : list (bytes * option bytes)) (hs : list EP.hist) := hd ++ hflat (concat hs).
+
+(* a write that is acknowledged or refused, an empty batch *)
+Lemma CInv_batch : forall s hd hs ops tr', CInv s hd hs ->
+  exists hs', CInv (mkC (fst (apply_batch (eng s) ops)) (disk s) tr' (cc s) (retirable s)) hd hs'.
+Proof.
+  intros s hd hs ops tr' C. destruct ops as [|o r].
+  - exists hs. apply (CInv_ext s); auto.
+  - destruct (apply_batch (eng s) (o :: r)) as [e' [q|]] eqn:E.
+    + eexists. apply (CInv_write s hd hs (o :: r) e' q tr' C); auto. discriminate.
+    + exists hs. pose proof (EP.apply_batch_no_effect _ _ _ E). subst e'. apply (CInv_ext s); auto.
+Qed.
+
+Lemma CInv_full : forall s hd hs z, CInv s hd hs -> exists hs',
+  CInv (cfull s z) hd hs' /\ concat hs' = concat hs /\
+  (forall k, dread (disk (cfull s z)) k = spec (Hof hd hs) k) /\
+  retirable (cfull s z) = (length hs' - 1)%nat.
+Proof.
+  intros s hd hs z C. unfold cfull.
+  destruct (CInv_flush s hd hs z C) as (h1 & C1 & E1 & P1 & L1 & F1).
+  destruct (pending (eng s)) eqn:P.
+  - exists h1. split; [|split; [auto|split]].
+    + apply (CInv_ext (cflush s z)); auto.
+    + intro k. cbn [disk]. apply F1. auto.
+    + cbn [retirable eng]. rewrite L1. auto.
+  - destruct (CInv_flush _ hd h1 (skipn (nfresh s) z) C1) as (h2 & C2 & E2 & P2 & L2 & F2).
+    exists h2. split; [|split; [congruence|split]].
+    + apply (CInv_ext (cflush (cflush s z) (skipn (nfresh s) z))); auto.
+    + intro k. cbn [disk]. unfold Hof. rewrite <- E1. apply F2. auto.
+    + cbn [retirable eng]. rewrite L2. auto.
+Qed.
+
+Lemma SS_app_r : forall (A : Type) (R : A -> A -> Prop) a b, StronglySorted R (a ++ b) -> StronglySorted R b.
+Proof. induction a; simpl; intros; auto. inversion H; subst. auto. Qed.
+
+Lemma utab_entries_in_hist : forall s hd hs m x, CInv s hd hs -> In m (utabs (eng s)) ->
+  In x (mt_entries m) -> In x (EP.entries (concat hs)).
+Proof.
+  intros s hd hs m x C Hm Hx. apply (EP.layer_entries_in_hist (lost (eng s)) (concat hs) m x (ci_inv _ _ _ C)); auto.
+  simpl. pose proof (utabs_layers s hd hs m C Hm) as L. unfold mem_layers in L. destruct L as [<-|L]; auto.
+  right. apply in_rev. auto.
+Qed.
+
+Lemma CInv_reopen_false : forall s hd hs, CInv s hd hs -> lost_log (eng (creopen s false)) = false ->
+  exists hs', CInv (creopen s false) hd hs' /\ concat hs' = concat hs.
+Proof.
+  intros s hd hs C Hl. pose proof (ci_ok _ _ _ C) as OK.
+  pose proof (cstep_ok2 (CReopen false) s OK) as OK'. simpl in OK'.
+  pose proof (ci_inv _ _ _ C) as I.
+  exists (match hs with [] => [[]] | _ => hs end). split.
+  - assert (H6 : forall k, (forall x, In x (EP.entries (concat hs)) -> mk x <> k) ->
+                 dread (disk s) k = spec (hd ++ hflat (concat hs)) k).
+    { intros k Hk. apply (ci_di _ _ _ C). intros m Hm (x & Hx & Hkx).
+      eapply Hk; eauto. eapply utab_entries_in_hist; eauto. }
+    apply (CInv_reopen_core s (eng s) hd hs (retirable s) OK (EP.inv_sorted _ _ I) (EP.inv_nonempty _ _ I)
+             (ci_wal _ _ _ C) (ci_lost _ _ _ C) (ci_hseq _ _ _ C) H6 Hl eq_refl (c2_eng _ OK')).
+  - destruct hs; auto.
+Qed.
+
+Lemma skipn_map : forall (A B : Type) (f : A -> B) n l, skipn n (map f l) = map f (skipn n l).
+Proof. induction n; destruct l; simpl; auto. Qed.
+
+Lemma CInv_full_retire : forall s hd hs z, CInv s hd hs ->
+  lost_log (eng (creopen (cfull s z) true)) = false ->
+  exists hd' hs', CInv (creopen (cfull s z) true) hd' hs' /\ Hof hd' hs' = Hof hd hs.
+Proof.
+  intros s hd hs z C Hl. destruct (CInv_full s hd hs z C) as (h1 & C1 & E1 & F1 & R1).
+  set (s1 := cfull s z) in *. pose proof (ci_ok _ _ _ C1) as OK.
+  pose proof (cstep_ok2 (CReopen true) s1 OK) as OK'. simpl in OK'.
+  pose proof (ci_inv _ _ _ C1) as I.
+  set (j := retirable s1) in *.
+  set (e1 := upd_wal (eng s1) (wal_next (eng s1)) (skipn j (wal_files (eng s1)))).
+  assert (Split : concat h1 = concat (firstn j h1) ++ concat (skipn j h1)).
+  { rewrite <- concat_app, firstn_skipn. auto. }
+  set (hd1 := hd ++ hflat (concat (firstn j h1))).
+  set (hs1 := skipn j h1).
+  assert (HH : Hof hd1 hs1 = Hof hd hs).
+  { unfold Hof, hd1, hs1. rewrite <- app_assoc, <- hflat_app, <- Split, E1. auto. }
+  exists hd1, (match hs1 with [] => [[]] | _ => hs1 end). split.
+  - assert (H1 : StronglySorted N.lt (map fst (concat hs1))).
+    { pose proof (EP.inv_sorted _ _ I) as S. rewrite Split, map_app in S. eapply SS_app_r; eauto. }
+    assert (H2 : Forall (fun p => effects (snd p) <> []) (concat hs1)).
+    { pose proof (EP.inv_nonempty _ _ I) as S. rewrite Split in S. apply Forall_app in S. tauto. }
+    assert (H3 : map EP.wentries hs1 = wal_files e1).
+    { unfold e1, hs1. cbn [wal_files upd_wal]. rewrite <- (ci_wal _ _ _ C1). symmetry. apply skipn_map. }
+    assert (H4 : lost_log e1 = false) by (apply (ci_lost _ _ _ C1)).
+    assert (H5 : Forall (fun q => q < MaxSeq) (map fst (concat hs1))).
+    { pose proof (ci_hseq _ _ _ C1) as S. rewrite Split, map_app in S. apply Forall_app in S. tauto. }
+    assert (H6 : forall k, (forall x, In x (EP.entries (concat hs1)) -> mk x <> k) ->
+                 dread (disk s1) k = spec (hd1 ++ hflat (concat hs1)) k).
+    { intros k _. fold (Hof hd1 hs1). rewrite HH. apply F1. }
+    apply (CInv_reopen_core s1 e1 hd1 hs1 0%nat OK H1 H2 H3 H4 H5 H6 Hl eq_refl (c2_eng _ OK')).
+  - unfold Hof in *. rewrite <- HH. destruct hs1; auto.
+Qed.
+
+(* ---------- programs ---------- *)
+
+(* log retirement (CReopen true) happens only right after a full flush: that is when every
+   record of the retired files is in a table AND no older memtable can be written after a newer
+   table (known finding KF-C12-7 is the other case) *)
+Fixpoint legit (ops : list cop) : Prop :=
+  match ops with
+  | [] => True
+  | CFull _ :: rest => match rest with CReopen true :: r => legit r | _ => legit rest end
+  | CReopen true :: _ => False
+  | _ :: r => legit r
+  end.
+
+(* no recovery ran out of memtable budget (C02's known finding D11) *)
+Definition noloss (s : cst) (ops : list cop) : Prop :=
+  forall n, lost_log (eng (fold_left cstep (firstn n ops) s)) = false.
+
+Lemma noloss_head : forall s o r, noloss s (o :: r) -> lost_log (eng (cstep s o)) = false.
+Proof. intros. apply (H 1%nat). Qed.
+Lemma noloss_tail : forall s o r, noloss s (o :: r) -> noloss (cstep s o) r.
+Proof. intros s o r H n. apply (H (S n)). Qed.
+
+Lemma CInv_step_simple : forall o s hd hs, CInv s hd hs -> o <> CReopen true ->
+  lost_log (eng (cstep s o)) = false ->
+  exists hd' hs', CInv (cstep s o) hd' hs' /\
+    (match o with CPut _ _ | CDel _ | CBatch _ | CCommit _ => True | _ => Hof hd' hs' = Hof hd hs end).
+Proof.
+  destruct o; intros s0 hd hs C Hn Hl; cbn [cstep] in *.
+  - unfold cput. rewrite EP.put_as_batch.
+    destruct (CInv_batch s0 hd hs [(k, Some v)] (tracked s0) C) as (hs' & C').
+    exists hd, hs'. split; auto. destruct (apply_batch (eng s0) [(k, Some v)]). exact C'.
+  - unfold cdel. rewrite EP.del_as_batch.
+    destruct (apply_batch (eng s0) [(k, None)]) as [e' r] eqn:E.
+    destruct (CInv_batch s0 hd hs [(k, None)] (if is_ok r then k :: tracked s0 else tracked s0) C) as (hs' & C').
+    rewrite E in C'. exists hd, hs'. split; auto.
+  - unfold cbatch. destruct (apply_batch (eng s0) ops) as [e' r] eqn:E.
+    destruct (CInv_batch s0 hd hs ops (if is_ok r then rev (del_keys ops) ++ tracked s0 else tracked s0) C) as (hs' & C').
+    rewrite E in C'. exists hd, hs'. split; auto.
+  - unfold ccommit. rewrite EP.tx_commit_as_batch.
+    destruct (CInv_batch s0 hd hs (buffer_ops ops) (tracked s0) C) as (hs' & C').
+    exists hd, hs'. split; auto. destruct (apply_batch (eng s0) (buffer_ops ops)). exact C'.
+  - destruct (CInv_flush s0 hd hs sizes C) as (hs' & C' & E & _). exists hd, hs'. split; auto.
+    unfold Hof. rewrite E. auto.
+  - destruct (CInv_full s0 hd hs sizes C) as (hs' & C' & E & _). exists hd, hs'. split; auto.
+    unfold Hof. rewrite E. auto.
+  - exists hd, hs. split; auto. apply CInv_trigger; auto.
+  - exists hd, hs. split; auto. apply CInv_range; auto.
+  - destruct retire. congruence.
+    destruct (CInv_reopen_false s0 hd hs C Hl) as (hs' & C' & E). exists hd, hs'. split; auto.
+    unfold Hof. rewrite E. auto.
+  - exists hd, hs. split; auto.
+Qed.
+
+Lemma CInv_steps : forall n ops, (length ops <= n)%nat -> forall s hd hs,
+  CInv s hd hs -> legit ops -> noloss s ops ->
+  exists hd' hs', CInv (fold_left cstep ops s) hd' hs'.
+Proof.
+  induction n; intros ops Hlen s hd hs C L NL.
+  - destruct ops; simpl in *; try lia. eauto.
+  - destruct ops as [|o r]. simpl. eauto.
+    assert (Simple : o <> CReopen true -> legit r ->
+                     exists hd' hs', CInv (fold_left cstep (o :: r) s) hd' hs').
+    { intros Ho Lr. destruct (CInv_step_simple o s hd hs C Ho (noloss_head _ _ _ NL)) as (hd1 & hs1 & C1 & _).
+      simpl. apply (IHn r) with hd1 hs1; auto. simpl in Hlen. lia. apply noloss_tail; auto. }
+    destruct o; try (apply Simple; [discriminate|exact L]).
+    + (* CFull: alone, or followed by the retirement *)
+      destruct r as [|o2 r2]. apply Simple. discriminate. exact L.
+      destruct o2; try (apply Simple; [discriminate|exact L]).
+      destruct retire. 2: apply Simple; [discriminate|exact L].
+      simpl in L. simpl.
+      assert (Hl : lost_log (eng (creopen (cfull s sizes) true)) = false) by (apply (NL 2%nat)).
+      destruct (CInv_full_retire s hd hs sizes C Hl) as (hd1 & hs1 & C1 & _).
+      apply (IHn r2) with hd1 hs1; auto. simpl in Hlen. lia.
+      intro m. apply (NL (S (S m))).
+    + destruct retire. simpl in L. tauto. apply Simple. discriminate. exact L.
+Qed.
+
+Definition run_ok (c : config) (k : ccfg) (ops : list cop) : Prop :=
+  cfg_ok k /\ legit ops /\ noloss (cinit c k) ops.
+
+Theorem reachable_CInv : forall c k ops, run_ok c k ops -> exists hd hs, CInv (crun c k ops) hd hs.
+Proof.
+  intros c k ops (A & B & D). unfold crun.
+  apply (CInv_steps (length ops) ops (le_n _) (cinit c k) [] [[]]); auto. apply CInv_init; auto.
+Qed.
+
+(* every read returns the latest acknowledged write: the ground truth behind the theorem *)
+Theorem reads_latest : forall c k ops, run_ok c k ops ->
+  exists H, forall key, cget (crun c k ops) key = spec H key.
+Proof.
+  intros. destruct (reachable_CInv c k ops H) as (hd & hs & C). exists (Hof hd hs).
+  intro key. apply cget_spec. auto.
+Qed.
+
+(* C12, last sentence, in full: the database reopened on the (compacted) files reads the same as
+   before — log kept, or the flushed log files retired after a full flush *)
+Theorem reopen_reads_same : forall c k ops, run_ok c k ops ->
+  let s := crun c k ops in
+  (lost_log (eng (creopen s false)) = false ->
+   forall key, cget (creopen s false) key = cget s key) /\
+  (forall z, lost_log (eng (creopen (cfull s z) true)) = false ->
+   forall key, cget (creopen (cfull s z) true) key = cget s key).
+Proof.
+  intros c k ops R s. destruct (reachable_CInv c k ops R) as (hd & hs & C). fold s in C. split.
+  - intros Hl key. destruct (CInv_reopen_false s hd hs C Hl) as (hs' & C' & E).
+    rewrite (cget_spec _ _ _ key C'), (cget_spec _ _ _ key C). rewrite E. auto.
+  - intros z Hl key. destruct (CInv_full_retire s hd hs z C Hl) as (hd' & hs' & C' & E).
+    rewrite (cget_spec _ _ _ key C'), (cget_spec _ _ _ key C). unfold Hof in E. rewrite E. auto.
+Qed.
+
+(* ---------- non-vacuity ---------- *)
+
+Fixpoint prefixes_ok (s : cst) (ops : list cop) : bool :=
+  negb (lost_log (eng s)) && match ops with [] => true | o :: r => prefixes_ok (cstep s o) r end.
+
+Lemma prefixes_ok_noloss : forall ops s, prefixes_ok s ops = true -> noloss s ops.
+Proof.
+  induction ops; simpl; intros s H n; apply andb_prop in H; destruct H as [A B].
+  - destruct n; simpl; apply negb_true_iff; auto.
+  - destruct n; simpl. apply negb_true_iff; auto. apply IHops. auto.
+Qed.
+
+Definition ex_prog : list cop :=
+  [CPut kx [1]; CFull []; CPut kx [2]; CDel ka; CFull []; CTrigger []; CFull []; CReopen true;
+   CPut ka [3]; CFlush []; CReopen false; CCommit [(kx, None)]; CFull []; CRange ka kx []].
+
+Example run_ok_example : run_ok cfg2 cc_off ex_prog.
+Proof.
+  split. unfold cfg_ok. simpl. lia. split. simpl. auto.
+  apply prefixes_ok_noloss. vm_compute. reflexivity.
+Qed.
+
+Example reopen_reads_same_example :
+  let s := crun cfg2 cc_off ex_prog in
+  lost_log (eng (creopen s false)) = false /\ lost_log (eng (creopen (cfull s []) true)) = false /\
+  cget s kx = None /\ cget s ka = Some [3] /\
+  cget (creopen (cfull s []) true) ka = Some [3] /\ cget (creopen s false) kx = None.
+Proof. vm_compute. auto 7. Qed.
